@@ -436,7 +436,8 @@ class RetrieveManual(Contract):
         from pyvc.models import member_pred
         in_res = member_pred(res)      # membership in the returned list (P-SET: list(S)/sorted(S) enumerate S)
         allman = z3.ForAll([k], z3.Implies(z3.And(k >= 0, k < g.n.e), g.manual.sel(k)))
-        active = z3.And(z3.Not(to_z3(g.changed, "bool")), z3.Not(allman))
+        # (also when no event is excluded at the moment: an exclusion that was taken back must not be remembered)
+        active = z3.Not(to_z3(g.changed, "bool"))
         return [("every remembered id is excluded now, or was remembered and is hidden now",
                  z3.Implies(active, z3.ForAll([x], z3.Implies(in_res(x), z3.Or(excluded(x),
                                                                               z3.And(in_old(x), z3.Not(visible(x)))))))),
@@ -444,7 +445,7 @@ class RetrieveManual(Contract):
                  z3.Implies(active, z3.ForAll([x], z3.Implies(excluded(x), in_res(x))))),
                 ("every remembered id that is hidden now stays remembered",
                  z3.Implies(active, z3.ForAll([x], z3.Implies(z3.And(in_old(x), z3.Not(visible(x))), in_res(x))))),
-                ("parent changed or nothing excluded: the remembered ids are kept as they are",
+                ("parent changed: the remembered ids are kept as they are",
                  z3.Implies(z3.Not(active), z3.ForAll([x], in_res(x) == in_old(x)))),
                 ("the method returns the remembered ids", z3.BoolVal(result is res))]
 
@@ -774,7 +775,9 @@ def replay(unit_name, inp, obligation=""):
         refresh()
         bad = check("initial")
         ops = inp.get("ops") or [("filt", 0, [1]), ("man", [0, 2]), ("temp", 1), ("filt", 0, [1, 3]), ("filt", 0, []),
-                                 ("temp", 2), ("filt", 1, [0]), ("filt", 0, [2]), ("filt", 1, []), ("filt", 0, [])]
+                                 ("temp", 2), ("filt", 1, [0]), ("filt", 0, [2]), ("filt", 1, []), ("filt", 0, []),
+                                 # two assignments in a row: no filter and no setting changes in between
+                                 ("temp", 3), ("temp", 4)]
         tmp_name = "pyvc_tmp"
         try:
             dclab.register_temporary_feature(tmp_name, is_scalar=True)
@@ -823,7 +826,9 @@ def bounded_inputs(unit_name, rng):
         depth = r.choice((2, 2, 3))
         ops = []
         for _ in range(r.randint(4, 9)):
-            if r.random() < 0.3:
+            if r.random() < 0.2:
+                ops.append(("temp", r.randint(1, 50)))
+            elif r.random() < 0.3:
                 ops.append(("man", sorted(r.sample(range(6), r.randint(1, 3)))))
             else:
                 ops.append(("filt", r.randint(0, depth - 1), sorted(r.sample(range(8), r.randint(0, 3)))))
